@@ -499,7 +499,7 @@ def build_and_check(unit, tier, workdir, mutate=None, want_trace=True, tag="main
     if unit.havoc_loops:
         nxt = os.path.join(d, "h.gb")
         cmd = ["goto-instrument", "--havoc-loops", cur, nxt]
-        rc, out, dt = run(cmd, 300)
+        rc, out, dt = run(cmd, 300, limit=False)      # (goto-instrument segfaults under RLIMIT_AS on some programs; it is a short run)
         res["cmds"].append(" ".join(cmd))
         if rc != 0:
             raise Undecided("goto-instrument --havoc-loops failed for %s: %s" % (unit.name, out[-2000:]))
